@@ -3,6 +3,9 @@
 # tree this script lives in (works inside a `vp run` snapshot), prints one line per run.
 cd "$(dirname "$0")/.." || exit 2
 export GOFLAGS=-mod=mod GOPROXY=off GOSUMDB=off GOTOOLCHAIN=local
+# inside `vp run --with-repo` the checks build against the snapshot of /repo's HEAD, so that
+# /repo itself can be worked on meanwhile (seeded changes are applied to it temporarily)
+if [ -n "$VP_RUN_REPO" ]; then export VERIF_REPO="$VP_RUN_REPO"; echo "using repository snapshot $VERIF_REPO"; fi
 (cd harness && go1.26.8 build -o ../bin/vcheck ./cmd/vcheck) || exit 2
 tier="$1"; shift
 for seed in "$@"; do
